@@ -271,7 +271,7 @@ def check(ctx):
     for fi in repo.funcs.values():
         mn = fi.mod.name
         on_path = (mn == "bromelia.base" and fi.cls is not None and fi.cls.name in ("DiameterAVP", "DiameterMessage", "DiameterHeader", "DiameterAvpLoader")
-                   and fi.name in ("load", "get_avp_class", "_get_load_avps_dictionary", "has_updated")) or \
+                   and (fi.name in ("load", "get_avp_class", "_get_load_avps_dictionary", "has_updated") or fi.cls.name == "DiameterAvpLoader")) or \
             (mn == "bromelia.types" and fi.cls is not None and fi.name in ("__init__", "parser_data")) or \
             (mn.startswith("bromelia.avps.") and fi.cls is not None and fi.name == "__init__")
         if not on_path:
@@ -334,6 +334,10 @@ def check(ctx):
     _splitter(ctx, repo, msg)
 
     # ---- 4 registry ------------------------------------------------------------------------------------
+    # decoding a Grouped AVP re-appends every member found on the wire: the append must not skip or reorder any (shared with C01)
+    ctx.clause = "3b-grouped-members"
+    from .c01 import _grouped
+    _grouped(ctx, repo)
     ctx.clause = "4-registry"
     _registry(ctx, repo)
     ctx.clause = "4-direct-subclass"
@@ -467,11 +471,45 @@ def _registry(ctx, repo):
     return table[K][P.code], and both must pick K = the Vendor-ID, or VENDOR_ID_DEFAULT when it is None."""
     from .. import sym
     ldr = ctx.need(repo.cls("bromelia.base.DiameterAvpLoader"), "DiameterAvpLoader")
-    w = ctx.need(ldr.methods.get("_get_load_avps_dictionary"), "_get_load_avps_dictionary")
     r = ctx.need(ldr.methods.get("get_avp_class"), "get_avp_class")
+    # the writer is the loader method that walks the AVP classes (whatever it is called; a new helper is inlined into its caller)
+    def walks_classes(fn_):
+        for n in walk_no_nested(fn_):
+            if isinstance(n, ast.For):
+                itx_ = ast.unparse(n.iter)
+                if "__subclasses__()" in itx_:
+                    return True
+                if isinstance(n.iter, ast.Name) and any(isinstance(a_, ast.Assign) and len(a_.targets) == 1 and isinstance(a_.targets[0], ast.Name)
+                                                        and a_.targets[0].id == n.iter.id and "__subclasses__()" in ast.unparse(a_.value)
+                                                        for a_ in walk_no_nested(fn_)):
+                    return True
+        return False
+    wname = next((n_ for n_, f_ in sorted(ldr.methods.items()) if walks_classes(f_)), "_get_load_avps_dictionary")
+    w = ctx.need(ldr.methods.get(wname), "the DiameterAvpLoader method that builds the (vendor, code) table")
     bm = ldr.mod
     default = repo.fold(bm, ast.Name(id="VENDOR_ID_DEFAULT", ctx=ast.Load()))
-    wq, rq = f"{ldr.qual}._get_load_avps_dictionary", f"{ldr.qual}.get_avp_class"
+    wq, rq = f"{ldr.qual}.{wname}", f"{ldr.qual}.get_avp_class"
+    # the table is published whole: the loader is a module-level singleton shared by every decoding thread, so the object bound to
+    # self.avps must not be filled or changed in place (a second thread would look up an empty or partial table, get KeyError and
+    # decode a known AVP as a generic one) - it is built in a local and assigned when complete
+    inplace = []
+    for mname, fn_ in sorted(ldr.methods.items()):
+        for n in walk_no_nested(fn_):
+            base = None
+            if isinstance(n, ast.Subscript) and isinstance(n.ctx, (ast.Store, ast.Del)):
+                base = n.value
+            elif isinstance(n, ast.Call) and isinstance(n.func, ast.Attribute) and n.func.attr in ("setdefault", "update", "clear", "pop", "popitem", "__setitem__"):
+                base = n.func.value
+            while isinstance(base, (ast.Subscript, ast.Call)):
+                base = base.value if isinstance(base, ast.Subscript) else (base.func.value if isinstance(base.func, ast.Attribute) else None)
+            if base is not None and ast.unparse(base) in ("self.avps", "self._avps_table"):
+                inplace.append((mname, n))
+    ctx.decide(not inplace, "R-PUBLISH/registry", f"{ldr.qual}.avps", ldr.where(inplace[0][1] if inplace else w),
+               "the shared class table is only ever replaced by a completely built one",
+               f"{ldr.name}.{inplace[0][0] if inplace else ''} changes the table bound to self.avps in place (`{ast.unparse(inplace[0][1])[:60] if inplace else ''}`): "
+               f"the loader is one module-level object used by every decoding thread, so while one thread refills the table another one "
+               f"looks a known (vendor, code) up in an empty or partial table, gets KeyError and materialises the AVP as a generic DiameterAVP",
+               key="published_whole")
     loops = [n for n in walk_no_nested(w) if isinstance(n, ast.For) and isinstance(n.target, ast.Name)]
     if len(loops) != 1 or not isinstance(default, bytes):
         ctx.undecided("R-TABLE/registry", wq, ldr.where(w), "expected one loop over the AVP classes and a constant default vendor", key="writer")
@@ -503,13 +541,15 @@ def _registry(ctx, repo):
         return False
     rows, okw = [], True
     code = ("attr", X, "code")
-    tables = {n.value.id for n in walk_no_nested(w) if isinstance(n, ast.Return) and isinstance(n.value, ast.Name)}
+    tables = {n.value.id for n in walk_no_nested(w) if isinstance(n, ast.Return) and isinstance(n.value, ast.Name)} | \
+        {n.value.id for n in walk_no_nested(w) if isinstance(n, ast.Assign) and len(n.targets) == 1 and ast.unparse(n.targets[0]) == "self.avps"
+         and isinstance(n.value, ast.Name)}
     for p_ in it.loop_body(lp, {}):
         if p_.term not in ("fall", "continue"):
             okw = False
             rows.append(f"path ends with {p_.term}")
             continue
-        entries, nclob = sym.table_writes(p_, lambda t: isinstance(t, tuple) and t[0] == "name" and t[1] in tables)
+        entries, nclob = sym.table_writes(p_, lambda t: isinstance(t, tuple) and (t[0] == "name" and t[1] in tables or sym.show(t) == "self.avps"))
         clobber = nclob > 0
         final = None
         for k1, k2, v in entries:
